@@ -32,6 +32,11 @@ def sig_class(F, b):
         return ("RAW-OUT", +1)
     if b.get("unsafe") and in_ptr and tout - tin == 1:
         return ("RAW-IN", -1)
+    if b.get("unsafe") and in_ptr and tin == 0 and tout == 0 and not out_ptr and F.ts(b["output"] if "output" in b else -1) in ("()", "!"):
+        # `unsafe fn increment_strong_count(ptr: *const T)` / `decrement_strong_count`: raw-pointer counterparts of clone and drop.
+        # What they do to the count is their contract with the unsafe caller (who owns the handles the pointer stands for): one
+        # unit up or down, the same on every path (see rule_bal)
+        return ("RAW-COUNT", None)
     return ("PLAIN", 0)
 
 
@@ -119,6 +124,9 @@ def rule_bal(ctx, rep, rule="R-BAL", scope=None):
             cls, exp = sig_class(F, b)
             prs = [p for p in A.paths[key] if p.exit == "ret"]
             npaths += len(prs)
+            if exp is None:
+                ks = set(imbalance(p.vec) for p in prs)
+                exp = ks.pop() if len(ks) == 1 and abs(next(iter(ks))) <= 1 else 0
             bad = None
             for p in prs:
                 if p.notes:
@@ -159,7 +167,11 @@ def rule_unw(ctx, rep, rule="R-UNW", da=False, scope=None):
             key = b["key"]
             cls, exp = sig_class(F, b)
             base = exp if cls == "DROP-IMPL" else 0
-            prs = [p for p in A.paths[key] if p.exit == "unw" and not declined_sole_owner(F, E, b, p)]
+            raw_k = None
+            if cls == "RAW-COUNT":
+                ks = set(imbalance(p.vec) for p in A.paths[key] if p.exit == "ret")
+                raw_k = next(iter(ks)) if len(ks) == 1 else None
+            prs = [p for p in A.paths[key] if p.exit == "unw" and not declined_sole_owner(F, E, b, p) and not (raw_k is not None and imbalance(p.vec) == raw_k)]
             if not prs:
                 continue
             npaths += len(prs)
